@@ -415,9 +415,29 @@ fn inputs(prop: &str, seed: u64, w: u32, thorough: bool) -> Inputs {
                     k += 1;
                 }
             }
+            // k digits that are each a single bit (k = 2..5), per granularity: sparse patterns for tests that
+            // combine per-digit predicates
+            for g in [1usize, 2, 4, 8] {
+                let nd = n / g;
+                for k in 2..=5usize {
+                    if k <= nd && (thorough || r.below(2) == 0) {
+                        let mut v = gen::zero(n);
+                        let mut used = Vec::new();
+                        while used.len() < k {
+                            let d = r.below(nd as u64) as usize;
+                            if !used.contains(&d) {
+                                used.push(d);
+                                let bit = r.below((8 * g) as u64) as usize;
+                                v[d * g + bit / 8] |= 1 << (bit % 8);
+                            }
+                        }
+                        i.vals.push(v);
+                    }
+                }
+            }
             // exact powers of two and neighbours (next_power_of_two, is_power_of_two)
             for k in 0..(8 * n) {
-                if thorough || r.below(5) == 0 || k + 1 == 8 * n || k % 64 == 0 {
+                if thorough || r.below(5) == 0 || k + 1 == 8 * n || k % 64 == 0 || k % 8 == 7 {
                     let p = gen::pow2(n, k);
                     i.vals.push(gen::sub1(&p));
                     i.vals.push(gen::add1(&p));
@@ -447,7 +467,7 @@ fn inputs(prop: &str, seed: u64, w: u32, thorough: bool) -> Inputs {
             while ps.len() < np {
                 let a = gen::any(&mut r, n, &bnd);
                 let mut b = a.clone();
-                match r.below(5) {
+                match r.below(7) {
                     0 => {
                         let k = r.below(n as u64) as usize;
                         for j in 0..=k.min(n - 1) {
@@ -463,6 +483,23 @@ fn inputs(prop: &str, seed: u64, w: u32, thorough: bool) -> Inputs {
                     2 => {
                         // same magnitude bits, opposite sign bit
                         b[n - 1] ^= 0x80;
+                    }
+                    5 | 6 => {
+                        // the same mask flipped in two different digits (differences that cancel under xor), per granularity
+                        let g = *r.pick(&[1usize, 2, 4, 8]);
+                        if 2 * g <= n {
+                            let nd = n / g;
+                            let i = r.below(nd as u64) as usize;
+                            let mut j = r.below(nd as u64) as usize;
+                            if j == i {
+                                j = (i + 1) % nd;
+                            }
+                            let m: Vec<u8> = (0..g).map(|_| (r.next() & 0xff) as u8 | 1).collect();
+                            for t in 0..g {
+                                b[i * g + t] ^= m[t];
+                                b[j * g + t] ^= m[t];
+                            }
+                        }
                     }
                     3 => {
                         // top digits order one way, lower digits the other way
